@@ -1,3 +1,4 @@
+import Secp.Proofs.WrapperTiesN
 import Secp.Proofs.ScalarCmp
 import Secp.Proofs.ScalarApiTiesTests
 import Secp.Proofs.ScalarApiTiesSelect
